@@ -31,10 +31,32 @@ Section Block.
       end
     end.
 
+  (* P holds for every transaction the flow adopts, on the state the flow has when it adopts it (specification companion) *)
+  Fixpoint flow_forall (P : txn -> credit_info -> state W -> Prop) (e : env) (used : Z) (txs : list (txn * credit_info)) (st : state W) : Prop :=
+    match txs with
+    | [] => True
+    | (t, ci) :: rest =>
+      match adopt W O clause_result write_credit e used t ci st with
+      | Rejected _ _ st' => flow_forall P e used rest st'
+      | Adopted _ _ st' rc => P t ci st /\ flow_forall P e (used + r_gas_used O rc) rest st'
+      end
+    end.
+  (* the primitives of the clauses executed by the adopted transactions are of the clause kinds and inside dom — dom is the
+     union of what the block's transactions touch (effs_ok_mono: a per-transaction set may be enlarged) *)
+  Definition flow_ops_ok (dom : list Z) (e : env) := flow_forall (fun t ci st => tx_ops_ok W O clause_result dom e t ci st) e.
+  Definition flow_no_self (e : env) := flow_forall (fun t ci st => tx_no_self W O clause_result e t ci st) e.
+
+  Lemma flow_forall_global (P : txn -> credit_info -> state W -> Prop) e txs : (forall t ci st, P t ci st) -> forall used st, flow_forall P e used txs st.
+  Proof.
+    intros G. induction txs as [|[t ci] rest IH]; intros used st; cbn; [exact I|].
+    destruct (adopt _ _ _ _ _ _ _ _ _); [apply IH|split; [apply G|apply IH]].
+  Qed.
+
   Lemma adopt_all_totals e dom :
     let T := e_time e in let S := e_stop e in
-    clause_ops_ok W O clause_result dom -> NoDup dom -> In (e_benef e) dom ->
+    NoDup dom -> In (e_benef e) dom ->
     forall txs used st rcs used' st' rcs',
+    flow_ops_ok dom e used txs st ->
     adopt_all W O clause_result write_credit e used txs st rcs = (used', st', rcs') ->
     Forall (fun rc => In (r_payer O rc) dom) rcs' ->
     exists new, rcs' = rcs ++ new /\
@@ -42,11 +64,12 @@ Section Block.
         sum_eng T S dom (l_acc (fst st)) + sum_reward new - sum_paid new - snd (flow_burned e used txs st) /\
       sum_bal dom (l_acc (fst st')) = sum_bal dom (l_acc (fst st)) - fst (flow_burned e used txs st).
   Proof.
-    intros T S N ND HB. induction txs as [|[t ci] rest IH]; intros used st rcs used' st' rcs' H HP; cbn in H.
+    intros T S ND HB. induction txs as [|[t ci] rest IH]; intros used st rcs used' st' rcs' N H HP; cbn in H.
     - inversion H; subst. exists []. rewrite app_nil_r. cbn. repeat split; lia.
-    - cbn [flow_burned]. destruct (adopt _ _ _ _ _ _ _ _ _) as [s1|s1 rc] eqn:EA.
+    - unfold flow_ops_ok in N. cbn [flow_burned flow_forall] in *. destruct (adopt _ _ _ _ _ _ _ _ _) as [s1|s1 rc] eqn:EA.
       + apply adopt_rejected_unchanged_lemma in EA. subst s1. eapply IH; eauto.
-      + destruct (IH _ _ _ _ _ _ H HP) as [new [E1 [E2 E3]]].
+      + destruct N as [N N'].
+        destruct (IH _ _ _ _ _ _ N' H HP) as [new [E1 [E2 E3]]].
         assert (HIn : In (r_payer O rc) dom).
         { rewrite Forall_forall in HP. apply HP. rewrite E1. apply in_or_app. left. apply in_or_app. right. left. reflexivity. }
         unfold adopt in EA. destruct (_ <? _); [discriminate|].
@@ -69,7 +92,8 @@ Section Block.
 
   Theorem block_totals_exact_lemma e dom txs st staking deleg used st' rcs :
     let T := e_time e in let S := e_stop e in
-    clause_ops_ok W O clause_result dom -> NoDup dom -> In (e_benef e) dom -> In deleg dom ->
+    flow_ops_ok dom e 0 txs st -> NoDup dom -> In (e_benef e) dom ->
+    (match staking with Some _ => In deleg dom | None => True end) ->
     block_flow e txs st staking deleg = (used, st', rcs) ->
     Forall (fun rc => In (r_payer O rc) dom) rcs ->
     sum_eng T S dom (l_acc (fst st')) =
@@ -80,40 +104,35 @@ Section Block.
     intros T S N ND HB HD. unfold block_flow.
     destruct (adopt_all _ _ _ _ _ _ _ _ _) as [[u s1] rs] eqn:EA.
     destruct staking as [[[[reward perc] x] hd]|]; intros H HP; inversion H; subst; clear H.
-    - destruct (adopt_all_totals e dom N ND HB _ _ _ _ _ _ _ EA HP) as [new [E1 [E2 E3]]]. cbn in E1. subst new.
+    - destruct (adopt_all_totals e dom ND HB _ _ _ _ _ _ _ N EA HP) as [new [E1 [E2 E3]]]. cbn in E1. subst new.
       cbn [fst]. fold T S. rewrite distribute_eng, distribute_bal by assumption. fold T S in E2. split; lia.
-    - destruct (adopt_all_totals e dom N ND HB _ _ _ _ _ _ _ EA HP) as [new [E1 [E2 E3]]]. cbn in E1. subst new.
+    - destruct (adopt_all_totals e dom ND HB _ _ _ _ _ _ _ N EA HP) as [new [E1 [E2 E3]]]. cbn in E1. subst new.
       fold T S in E2. split; lia.
   Qed.
 
-  (* when no clause performs a self-destruct to self nothing is burned *)
+  (* when no executed clause performs a self-destruct to self nothing is burned *)
   Definition no_self_destruct_to_self : Prop :=
     forall e t i g st o, In o (cr_ops _ _ (clause_result e t i g st)) -> self_destruct_to_self o = false.
 
-  Lemma burned_by_none T S effs :
-    (forall p o, In p effs -> In o (cr_ops W O (snd p)) -> self_destruct_to_self o = false) -> burned_by W O T S effs = (0, 0).
+  Lemma burned_by_none T S effs : effs_no_self W O effs -> burned_by W O T S effs = (0, 0).
   Proof.
     induction effs as [|p t IH]; intros H; [reflexivity|]. rewrite burned_by_cons.
     rewrite IH by (intros q o Hq; apply H; right; exact Hq).
     rewrite burned_none by (intros o Ho; apply (H p o); [left; reflexivity|exact Ho]). reflexivity.
   Qed.
 
-  Lemma effects_in cr T S cs : forall i lft st p, In p (effects_of W O cr T S i cs lft st) -> exists j g s, snd p = cr j g s.
+  Lemma tx_burned_none e t ci st : tx_no_self W O clause_result e t ci st -> tx_burned W O clause_result e t ci st = (0, 0).
+  Proof. intros NS. unfold tx_burned. destruct (any_error _ _ _); [reflexivity|]. apply burned_by_none. exact NS. Qed.
+
+  Lemma no_self_tx : no_self_destruct_to_self -> forall e t ci st, tx_no_self W O clause_result e t ci st.
   Proof.
-    induction cs as [|c rest IH]; intros i lft st p H; [contradiction|]. cbn [effects_of] in H. cbv zeta in H.
-    destruct H as [<-|H]; [eexists _, _, _; reflexivity|]. eapply IH; exact H.
+    intros G e t ci st p o Hp Ho. destruct (tx_effects_in W O clause_result _ _ _ _ _ Hp) as [j [g [s E]]]. rewrite E in Ho. exact (G e t j g s o Ho).
   Qed.
 
-  Lemma tx_burned_none (NS : no_self_destruct_to_self) e t ci st : tx_burned W O clause_result e t ci st = (0, 0).
+  Lemma flow_burned_none e txs : forall used st, flow_no_self e used txs st -> flow_burned e used txs st = (0, 0).
   Proof.
-    unfold tx_burned. destruct (any_error _ _ _); [reflexivity|]. apply burned_by_none.
-    intros p o Hp Ho. unfold tx_effects in Hp. destruct (resolve t); [contradiction|]. destruct (buy_gas _ _ _ _); [contradiction|].
-    apply effects_in in Hp. destruct Hp as [j [g [s E]]]. rewrite E in Ho. exact (NS e t j g s o Ho).
-  Qed.
-
-  Lemma flow_burned_none (NS : no_self_destruct_to_self) e txs : forall used st, flow_burned e used txs st = (0, 0).
-  Proof.
-    induction txs as [|[t ci] rest IH]; intros used st; [reflexivity|]. cbn [flow_burned].
-    destruct (adopt _ _ _ _ _ _ _ _ _); [apply IH|]. rewrite tx_burned_none by exact NS. rewrite IH. reflexivity.
+    induction txs as [|[t ci] rest IH]; intros used st NS; [reflexivity|]. unfold flow_no_self in NS. cbn [flow_burned flow_forall] in *.
+    destruct (adopt _ _ _ _ _ _ _ _ _); [apply IH; exact NS|]. destruct NS as [N1 N2].
+    rewrite tx_burned_none by exact N1. rewrite IH by exact N2. reflexivity.
   Qed.
 End Block.
